@@ -210,6 +210,9 @@ class TileManager(object):
             for created_tile in created_tiles:
                 if created_tile.coord in tiles:
                     tiles[created_tile.coord].source = created_tile.source
+                    # meta tile creators return new tile objects: keep their "do not cache" mark
+                    # (upstream errors mapped to uncached images must not be sent as cacheable)
+                    tiles[created_tile.coord].cacheable = bool(created_tile.cacheable)
 
         return tiles
 
